@@ -2,7 +2,7 @@
 From Coq Require Import List ZArith Bool.
 From Pico Require Import Base.Res Base.Mach Wire.Wire Schema.Types Schema.Scalar Ref.Ref
   Schema.ScalarProofs Dec.Dec Dec.ReaderProofs Wire.VarintProofs Wire.WireProofs
-  Schema.Gen Schema.Interp Dec.LoopEquiv Dec.LoopInst Schema.DecFlat Dec.SafetyProofs Dec.TokenBridge Schema.DecOps Schema.TDec gen.Schemas.
+  Schema.Gen Schema.Interp Dec.LoopEquiv Dec.LoopInst Schema.DecFlat Dec.SafetyProofs Dec.TokenBridge Schema.DecOps Schema.TDec Schema.Concat Schema.Rewrites gen.Schemas.
 Import ListNotations.
 Open Scope Z_scope.
 
@@ -80,6 +80,29 @@ Theorem C02_unmarshal_is_reference_decoder : forall s progs idx data t0,
   end.
 Proof. exact T_dec_at. Qed.
 
+(* Invariance under the wire rewrites, as statements about TWO inputs (reference decoder, and Unmarshal through T_dec):
+   - two adjacent records of different fields outside oneofs, or a known and an unknown record, can be exchanged
+     anywhere in the input (iterated: every reordering that keeps each field's own records in order);
+   - a singular sub-message split into several occurrences is the concatenation of the occurrences (merge);
+   packed / unpacked / mixed repeated scalars and non-minimal varints are part of T_dec itself: the decoder is the
+   reference decoder on each such input, whose tokens carry VALUES, not spellings. *)
+Theorem C02_exchange_records_reference : forall g s idx m a r1 r2 c ta t1 t2 x, nth_error s idx = Some m ->
+  bytes_ok a -> bytes_ok r1 -> bytes_ok r2 -> tokens a = Some ta -> tokens r1 = Some [t1] -> tokens r2 = Some [t2] ->
+  commuting s m t1 t2 ->
+  ref_decode (S g) s idx (a ++ r1 ++ r2 ++ c) x = ref_decode (S g) s idx (a ++ r2 ++ r1 ++ c) x.
+Proof. exact exchange_adjacent_records. Qed.
+Theorem C02_exchange_records_unmarshal : forall s progs idx m a r1 r2 c ta t1 t2 t0,
+  gen_all s = GOk progs -> tdec_applies_at s idx = true -> nth_error s idx = Some m ->
+  bytes_ok a -> bytes_ok r1 -> bytes_ok r2 -> bytes_ok c -> tokens a = Some ta -> tokens r1 = Some [t1] -> tokens r2 = Some [t2] ->
+  commuting s m t1 t2 ->
+  let u1 := pico_unmarshal progs idx (a ++ r1 ++ r2 ++ c) t0 in
+  let u2 := pico_unmarshal progs idx (a ++ r2 ++ r1 ++ c) t0 in
+  (fst u1 = None <-> fst u2 = None) /\ (fst u1 = None -> snd u1 = snd u2).
+Proof. exact unmarshal_exchange. Qed.
+Theorem C02_split_submessage : forall g s idx p1 p2 x y, bytes_ok p1 -> ref_decode g s idx p1 x = Some y ->
+  ref_decode g s idx (p1 ++ p2) x = ref_decode g s idx p2 y.
+Proof. exact split_submessage_merges. Qed.
+
 (* the side condition holds for 32 of the 35 checked-in message types (three types of test.proto use, or contain,
    custom types whose codecs are user code) *)
 Example C02_applies_to_checked_in :
@@ -102,3 +125,6 @@ Print Assumptions C02_flat_message.
 Print Assumptions C02_every_decode_body.
 Print Assumptions C02_varint_reader.
 Print Assumptions C02_unmarshal_is_reference_decoder.
+Print Assumptions C02_exchange_records_reference.
+Print Assumptions C02_exchange_records_unmarshal.
+Print Assumptions C02_split_submessage.
